@@ -125,6 +125,7 @@ func (e *Engine) resetPath(prefix []int64) {
 	e.schedTrace = nil
 	e.tarScript = nil
 	e.namedErrs = nil
+	e.releaseBig()
 	e.schedInit()
 }
 
